@@ -26,6 +26,9 @@ class TriggerData:
     kwargs: dict = field(default_factory=dict)
     """All keyword arguments provided on the :ref:`Event`."""
 
+    is_initial: bool = False
+    """Set by the engine on the internal trigger that activates the initial state."""
+
     def __post_init__(self):
         self.model = self.machine.model
 
